@@ -152,6 +152,65 @@ theorem toEnv_find (ds : DescSet) (reg : Reg) (hf : Found reg) (hinj : nameInj r
       rfl
   simp [this]
 
+/-! ## def names are distinct: `nameInj` follows from `linked` -/
+
+theorem list_dot_split {a a' b b' : List Char} (hb : '.' ∉ b) (hb' : '.' ∉ b')
+    (h : a ++ '.' :: b = a' ++ '.' :: b') : a = a' ∧ b = b' := by
+  rcases List.append_eq_append_iff.mp h with ⟨c, h1, h2⟩ | ⟨c, h1, h2⟩
+  · cases c with
+    | nil => simp at h1 h2; exact ⟨h1.symm, h2⟩
+    | cons x c' =>
+      simp only [List.cons_append, List.cons.injEq] at h2
+      exact absurd (by rw [h2.2]; simp) hb
+  · cases c with
+    | nil => simp at h1 h2; exact ⟨h1, h2.symm⟩
+    | cons x c' =>
+      simp only [List.cons_append, List.cons.injEq] at h2
+      exact absurd (by rw [h2.2]; simp) hb'
+
+theorem rootName_inj {p k p' k' : String} (hk : dotFree k = true) (hk' : dotFree k' = true)
+    (h : rootName p k = rootName p' k') : p = p' ∧ k = k' := by
+  have hl : (rootName p k).toList = (rootName p' k').toList := by rw [h]
+  simp only [rootName, String.toList_append] at hl
+  have hd : ".".toList = ['.'] := rfl
+  rw [hd] at hl
+  simp only [List.append_assoc, List.singleton_append] at hl
+  unfold dotFree at hk hk'
+  simp only [Bool.not_eq_eq_eq_not, Bool.not_true, List.contains_eq_mem, decide_eq_false_iff_not] at hk hk'
+  obtain ⟨h1, h2⟩ := list_dot_split hk hk' hl
+  exact ⟨String.toList_inj.mp h1, String.toList_inj.mp h2⟩
+
+/-- every key of a settled registry of a linked set is a schema name of the set: no dot -/
+theorem keys_dotFree (ds : DescSet) (hl : linked ds = true) (reg : Reg) (hs : Settled ds reg)
+    (e : REntry) (he : e ∈ reg) : dotFree e.key = true := by
+  have hsp := linked_splits hl
+  unfold splitsDotFree at hsp
+  simp only [Bool.and_eq_true, List.all_eq_true] at hsp
+  cases hto : e.to with
+  | none => exact absurd hto (hs.2.2 e he)
+  | some root =>
+    have hr := hs.2.1 e he root hto
+    cases root with
+    | enum _ _ _ _ =>
+      obtain ⟨_, en, hen, hk⟩ := hr
+      rw [hk]; exact hsp.2 en hen
+    | object _ _ _ _ _ =>
+      obtain ⟨m, hc, _, _, _, hk, _⟩ := hr
+      rw [hk]; exact (hsp.1 m hc.mem).1
+    | oneof _ _ _ =>
+      rcases hr with ⟨m, hc, _, _, _, hk, _⟩ | ⟨m, o, hc, ho, _, _, hk, _⟩
+      · rw [hk]; exact (hsp.1 m hc.mem).1
+      · rw [hk]; exact (hsp.1 m hc.mem).2 o ho
+
+theorem nameInj_of_settled (ds : DescSet) (hl : linked ds = true) (reg : Reg) (hs : Settled ds reg) :
+    nameInj reg = true := by
+  unfold nameInj
+  simp only [List.all_eq_true, Bool.or_eq_true, bne_iff_ne, ne_eq, Bool.and_eq_true, beq_iff_eq]
+  intro a ha b hb
+  by_cases h : rootName a.pkg a.key = rootName b.pkg b.key
+  · exact Or.inr (rootName_inj (keys_dotFree ds hl reg hs a ha) (keys_dotFree ds hl reg hs b hb) h)
+  · exact Or.inl h
+
 /-- a client property with an empty path is one of the object's own properties: a flattened
 field has a path, and prefixes it to what it brings -/
 theorem clientProps_emptyPath (reg : Reg) (fl : List Ref) (props : List RProp) :
@@ -206,12 +265,13 @@ theorem resolveIn_nil (ds : DescSet) (m : Msg) : resolveIn ds m [] = none := by
 /-- **the empty message of every reflected object encodes to `{}` and `{}` decodes to the empty
 message — on the codec cluster's model, through `toEnv`** -/
 theorem reflected_empty_message (ds : DescSet) (hl : linked ds = true) (reg : Reg)
-    (h : schemaSetFromFiles ds = .ok reg) (hinj : nameInj reg = true) (e : REntry) (he : e ∈ reg)
+    (h : schemaSetFromFiles ds = .ok reg) (e : REntry) (he : e ∈ reg)
     (p k : String) (en : Option (String × Int)) (am : List String) (ps : List RProp)
     (hto : e.to = some (.object p k en am ps)) (O : Oracle) (c : Cfg) (hc : c.env = toEnv ds reg) :
     encodeBytes (toEnv ds reg) O (rootName e.pkg e.key) (.msg []) = .ok (ascii "{}") ∧
     decodeBytes c (rootName e.pkg e.key) (ascii "{}") = .ok [] := by
   have hs := (schemaSetFromFiles_safe ds hl).2 reg h
+  have hinj := nameInj_of_settled ds hl reg hs
   obtain ⟨hregOK, hlinks, hall⟩ := hs
   obtain ⟨m, hcan, hsrc, _, _, _, hprops, _⟩ := hlinks e he _ hto
   obtain ⟨cps, hcps, hok⟩ := clientProps_ok ds hl reg ⟨hregOK, hlinks, hall⟩ [⟨e.pkg, e.key⟩] ps m hcan hprops
@@ -247,9 +307,9 @@ theorem reflected_empty_message (ds : DescSet) (hl : linked ds = true) (reg : Re
             cases root' with
             | enum _ _ _ _ =>
               exfalso
-              simp only [RootLink] at hr
-              rw [(linked_names ds (linked_base hl) m hcan.mem).2 o ho] at hr
-              cases hr
+              have h1 := hr.1
+              rw [(linked_names ds (linked_base hl) m hcan.mem).2 o ho] at h1
+              cases h1
             | object _ _ _ _ _ =>
               exfalso
               obtain ⟨m0, hc0, h0, _⟩ := hr
@@ -291,6 +351,73 @@ theorem reflected_empty_message (ds : DescSet) (hl : linked ds = true) (reg : Re
     rw [encodeTree_empty (toEnv ds reg) O _ _ hfind hempty]
     rfl
   · apply decodeBytes_empty c _ (cps.map (toProp ds m))
+    rw [hc]
+    exact hfind
+
+/-! ## oneof roots (a oneof wrapper message, an exposed oneof) -/
+
+theorem encOneofBody_empty (env : Env) (O : Oracle) (f : Nat) (ops : List PropDef) :
+    encOneofBody env O (f + 1) ops [] = .ok (.obj (.nil .closed)) := by
+  rw [encOneofBody]
+  have : ops.filter (oneofSet env (f + 1) ops []) = [] := by
+    apply List.filter_eq_nil_iff.mpr
+    intro q _
+    unfold oneofSet
+    split
+    · simp [hasProp_empty]
+    · simp
+  rw [this]
+
+theorem encodeTree_empty_oneof (env : Env) (O : Oracle) (root : String) (ops : List PropDef)
+    (hfind : env.find root = some (.oneof ops)) :
+    encodeTree env O root (.msg []) = .ok (.obj (.nil .closed)) := by
+  unfold encodeTree encFuel
+  have hd : (PVal.msg []).depth = 1 := by simp [PVal.depth, depthFields]
+  rw [hd]
+  show encRoot env O (14 + 2) root (.msg []) = _
+  simp only [encRoot, hfind]
+  exact encOneofBody_empty env O 14 ops
+
+theorem decodeBytes_empty_oneof (c : Cfg) (root : String) (ops : List PropDef)
+    (hfind : c.env.find root = some (.oneof ops)) :
+    decodeBytes c root (ascii "{}") = .ok [] := by
+  unfold decodeBytes
+  rw [readDoc_empty, decRootTree]
+  simp only [hfind]
+  rw [decOneofMembers]
+  simp [finishOneof, oneofPost, applyPost, closeOk]
+
+/-- the same for every reflected **oneof** schema: no member set ⇒ `{}`, and `{}` decodes to the
+message with no member set -/
+theorem reflected_empty_message_oneof (ds : DescSet) (hl : linked ds = true) (reg : Reg)
+    (h : schemaSetFromFiles ds = .ok reg) (e : REntry) (he : e ∈ reg)
+    (p k : String) (ps : List RProp) (hto : e.to = some (.oneof p k ps)) (O : Oracle) (c : Cfg)
+    (hc : c.env = toEnv ds reg) :
+    encodeBytes (toEnv ds reg) O (rootName e.pkg e.key) (.msg []) = .ok (ascii "{}") ∧
+    decodeBytes c (rootName e.pkg e.key) (ascii "{}") = .ok [] := by
+  have hs := (schemaSetFromFiles_safe ds hl).2 reg h
+  have hinj := nameInj_of_settled ds hl reg hs
+  have hown : (ownerMsg ds e.src).isSome = true := by
+    unfold ownerMsg
+    rw [List.find?_isSome]
+    rcases hs.2.1 e he _ hto with ⟨m, hc0, hsrc, _⟩ | ⟨m, o, hc0, ho, hsrc, _⟩
+    · exact ⟨m, hc0.mem, by simp [hsrc]⟩
+    · refine ⟨m, hc0.mem, ?_⟩
+      simp only [Bool.or_eq_true, beq_iff_eq, List.any_eq_true]
+      exact Or.inr ⟨o, ho, hsrc.symm⟩
+  obtain ⟨ops, hroot⟩ : ∃ ops, entryRoot ds reg e = .oneof ops := by
+    unfold entryRoot
+    simp only [hto]
+    cases hom : ownerMsg ds e.src with
+    | none => simp [hom] at hown
+    | some mo => exact ⟨_, rfl⟩
+  have hfind := toEnv_find ds reg hs.1.1 hinj e he
+  rw [hroot] at hfind
+  constructor
+  · unfold encodeBytes
+    rw [encodeTree_empty_oneof (toEnv ds reg) O _ ops hfind]
+    rfl
+  · apply decodeBytes_empty_oneof c _ ops
     rw [hc]
     exact hfind
 
